@@ -179,6 +179,10 @@ func (g *Gen) execCall(v ssa.Value, c *ssa.CallCommon, in ssa.Instruction, st St
 		g.assumed["logging-only function (body scanned: no stores, sends or non-logging calls), trusted not to panic: "+trimName(name)] = true
 		return
 	}
+	// a loop-free helper of the same package without a contract is executed in place (inline.go)
+	if f, ok := c.Value.(*ssa.Function); ok && g.inlineCall(v, f, c, st, reach) {
+		return
+	}
 	// results
 	if returnsNonNilError(name) && v != nil {
 		// a fresh error value without Is/Unwrap methods (fmt.Errorf with %w is not used in this code base)
